@@ -14,10 +14,18 @@
   * for every `IeeeOrd` scalar (the order theory of Lemmas/FloatModelCompare.lean): `mono_le_dist`, and
     **`calculateLength_good_of_natural`**: if the natural lengths never decrease and are `≥ 0`, so are the returned ones,
     in all five outcomes and for **every** requested length (NaN, `±∞`, negative included);
-  * for `Float`/`Float32`: **`calculateLength_lengths_monotone_float`**, **`calculateLength_dist_float`**,
-    `calculateLength_finite_float`, **`new_lengths_monotone_float`**, `new_lengths_monotone_float_surplus`,
-    with non-vacuity `example`s evaluated by the kernel (`decide +kernel`), and the witness `surplus_negative_decreases`
-    showing that the hypothesis `0 ≤ optimized_len` cannot be dropped.
+  * for `Float`/`Float32`: **`calculateLength_lengths_monotone_float`** (Mono, head `0.0`, all entries `≥ 0`, numbers,
+    `≤ dist`), **`calculateLength_dist_float`** (the C16 headline: `dist = L` bit for bit unless single point / near /
+    equal tail), `near_spec_float`, `near_false_of_infinite`, **`calculateLength_finite_float`** (a finite request gives
+    finite lengths even when the natural ones overflow to `+∞`), `natural_finite_iff_float`,
+    **`new_lengths_monotone_float`** (`Curve::new`, no osu!-mode Catmull segment), `new_lengths_monotone_float_surplus`
+    (any surplus `≥ 0`), with non-vacuity `example`s evaluated by the kernel (`decide +kernel`), and the witnesses
+    `surplus_negative_float` (the osu! Catmull surplus is negative on a 3-point sub-path) and
+    `surplus_negative_decreases` (then the lengths decrease): the hypothesis `0 ≤ optimized_len` cannot be dropped.
+    Props/C16IeeeAdjWitness.lean kernel-checks a complete `Curve::new` run with decreasing lengths.
+  Not done: an explicit coordinate bound (e.g. `|x|, |y| ≤ 2^20`, at most `2^20` points) that excludes `+∞` among the
+  *natural* lengths (no requested length); it needs monotonicity of the whole `f32` distance pipeline (`-`, `*`, `+`,
+  `sqrt`, both conversions), of which `sqrt` and the conversions are not available as order lemmas yet.
 
   Result of the comparison analysis: in no outcome can the list decrease in IEEE arithmetic (finite coordinates,
   `0 ≤ optimized_len`): the cut index is one past the last entry `x` with `x < L` (IEEE `<`, false on NaN), so the
@@ -392,6 +400,16 @@ theorem natLens_good_float (opt : Float) (path : List (Pos Float32)) (hopt : Sca
   · exact zero_le_zero_float
   · exact (lengths_monotone_float_finite opt path hopt hfin).2.1 v (List.mem_cons_of_mem _ hv)
 
+/-- `calculated_len ≥ 0`. -/
+theorem natTotal_nonneg_float (opt : Float) (path : List (Pos Float32)) (hopt : Scalar.le (0 : Float) opt = true)
+    (hfin : ∀ p ∈ path, FinitePos p) : Scalar.le (0 : Float) (natTotal opt path) = true := by
+  by_cases h2 : 2 ≤ path.length
+  · exact (natLens_good_float opt path hopt hfin).2 _ (natTotal_mem opt path h2)
+  · match path, h2 with
+    | [], _ => exact hopt
+    | [_], _ => exact hopt
+    | _ :: _ :: _, h2 => exact absurd (by simp) h2
+
 /-- **`calculateLength_lengths_monotone` for the driver's arithmetic**: for a path with finite `f32` coordinates, a
 surplus `0 ≤ optimized_len`, and **any** requested length (none, a number of either sign, `±∞`, NaN), the cumulative
 lengths `calculate_length` returns never decrease (IEEE `<=`, exactly — no `1e-5` tolerance is needed), start with
@@ -450,19 +468,45 @@ theorem near_false_of_infinite (opt : Float) (path : List (Pos Float32)) (L : Fl
   rw [FMO.le_float, habs]
   decide +kernel
 
+/-- what "near" means for a finite requested length: the natural length is finite and `|calculated_len − L| < ε`
+(`f64::EPSILON`, IEEE `<`). (For `L = +∞ = calculated_len` the difference is a NaN and the request is "near" too.) -/
+theorem near_spec_float (opt : Float) (path : List (Pos Float32)) (L : Float)
+    (hT : Scalar.le (0 : Float) (natTotal opt path) = true) (hL : L.toModel.unpack.isFinite = true)
+    (hn : near opt path L = true) :
+    (natTotal opt path).toModel.unpack.isFinite = true ∧
+      Scalar.lt (Scalar.abs (natTotal opt path - L)) (Scalar.eps : Float) = true := by
+  have hf : (natTotal opt path).toModel.unpack.isFinite = true := by
+    rcases nonneg_finite_or_inf _ hT with hf | hinf
+    · exact hf
+    · rw [near_false_of_infinite opt path L hinf hL] at hn; cases hn
+  refine ⟨hf, ?_⟩
+  have hd : Scalar.isNaN (natTotal opt path - L) = false := by
+    show (FMR.repack Float.Model.Format.binary64
+      (Float.Model.UnpackedFloat.sub Float.Model.Format.binary64 (natTotal opt path).toModel.unpack
+        L.toModel.unpack)).isNaN = false
+    rw [FB.repack_isNaN]
+    exact FB.sub_finite_not_nan _ _ _ hf hL
+  have ha : Scalar.isNaN (Scalar.abs (natTotal opt path - L)) = false := by
+    rw [FMO.isNaN_abs_float]; exact hd
+  apply FMO.lt_of_not_le _ _ ha (by decide +kernel)
+  unfold near Scalar.ge at hn
+  simpa using hn
+
 /-- **`calculateLength_dist_float`, the C16 headline for IEEE doubles**: finite `f32` coordinates, a surplus
 `0 ≤ optimized_len`, a requested length `0 < L` (hence a number; `+∞` allowed). The distance of the result is the
 requested length **bit for bit**, unless the path has at most one point (`0.0`), or `L` is within `f64::EPSILON` of the
-natural length `calculated_len` (then the natural length is kept: `|dist − L| ≥ ε` is false), or the path ends in two
-equal points while being shorter than `L` (then the natural length is kept, `dist < L`); every entry is a number with
-`0 ≤ entry ≤ dist`, and if `L` is finite every entry is finite. -/
+natural length `calculated_len` (then the natural length is kept: `|dist − L| < ε` for a finite `L`), or the path ends
+in two equal points while being shorter than `L` (then the natural length is kept, `dist < L`); every entry is a number
+with `0 ≤ entry ≤ dist`. If `L` is finite every entry is finite: `calculateLength_finite_float`. -/
 theorem calculateLength_dist_float (path : List (Pos Float32)) (L opt : Float)
     (hopt : Scalar.le (0 : Float) opt = true) (hfin : ∀ p ∈ path, FinitePos p)
     (hL : Scalar.lt (0 : Float) L = true)
     (p' : List (Pos Float32)) (ls : List Float) (h : calculateLength path (some L) opt = .ok (p', ls)) :
     (dist ls = if path.length ≤ 1 then (0 : Float)
               else if near opt path L || equalTail opt path L then natTotal opt path else L) ∧
-    (near opt path L = true → Scalar.ge (Scalar.abs (natTotal opt path - L)) (Scalar.eps : Float) = false) ∧
+    (near opt path L = true → L.toModel.unpack.isFinite = true →
+      (natTotal opt path).toModel.unpack.isFinite = true ∧
+        Scalar.lt (Scalar.abs (natTotal opt path - L)) (Scalar.eps : Float) = true) ∧
     (equalTail opt path L = true → Scalar.lt (natTotal opt path) L = true) ∧
     (∀ v ∈ ls, Float.isNaN v = false ∧ Scalar.le (0 : Float) v = true ∧ Scalar.le v (dist ls) = true) := by
   obtain ⟨_, _, hnn, hnan, hle⟩ := calculateLength_lengths_monotone_float path (some L) opt hopt hfin p' ls h
@@ -472,9 +516,8 @@ theorem calculateLength_dist_float (path : List (Pos Float32)) (L opt : Float)
     · simp [h1]
     · have hk := cutIdx_pos_of_pos path L opt (by omega) hL
       simp [h1, hk]
-  · intro hn
-    unfold near at hn
-    simpa using hn
+  · intro hn hLf
+    exact near_spec_float opt path L (natTotal_nonneg_float opt path hopt hfin) hLf hn
   · intro he
     unfold equalTail at he
     simp only [Bool.and_eq_true] at he
@@ -582,6 +625,124 @@ theorem new_lengths_monotone_float (fuel : Nat) (mode : GameMode) (pts : List (P
     exact calculateLength_finite_float b1.path L 0 zero_le_zero_float hf hL c.path c.lengths hl
 
 end New
+
+/-! ### non-vacuity and sharpness (closed `Float32`/`Float` instances evaluated by the kernel) -/
+
+section NonVacuity
+
+/-- `(0,0), (3,4), (6,8)` in `f32`: natural lengths `0, 5, 10`. -/
+def demo32 : List (Pos Float32) := [⟨0, 0⟩, ⟨3, 4⟩, ⟨6, 8⟩]
+/-- the same path ending in two equal points: natural lengths `0, 5, 5`. -/
+def demoTail32 : List (Pos Float32) := [⟨0, 0⟩, ⟨3, 4⟩, ⟨3, 4⟩]
+/-- finite coordinates whose first segment overflows in `f32`: natural lengths `0, +∞, +∞`. -/
+def demoHuge32 : List (Pos Float32) := [⟨0, 0⟩, ⟨2e19, 0⟩, ⟨1, 1⟩]
+
+/-- what `calculate_length` returns, as bit patterns. -/
+def lensBits (path : List (Pos Float32)) (e : Option Float) (opt : Float) : Option (List UInt64) :=
+  (calculateLength path e opt).toOption.map fun r => r.2.map Float.toBits
+
+/-- the hypotheses of the theorems above on the demo paths. -/
+example : (∀ p ∈ demo32, FinitePos p) ∧ (∀ p ∈ demoTail32, FinitePos p) ∧ (∀ p ∈ demoHuge32, FinitePos p) ∧
+    Scalar.le (0 : Float) (0 : Float) = true ∧ Scalar.lt (0 : Float) (7 : Float) = true ∧
+    (7 : Float).toModel.unpack.isFinite = true := by decide +kernel
+
+/-- the five outcomes are all reached in IEEE arithmetic: cut at `L = 7` (`[0, 5, 7]`), extension to `L = 20`
+(`[0, 5, 20]`), near (`L = 10`, natural), equal tail (`[0, 5, 5, 5]`), single point, collapse (`L = −5`: `[0]`). -/
+example : lensBits demo32 (some 7) 0 = some (([0, 5, 7] : List Float).map Float.toBits) ∧
+    lensBits demo32 (some 20) 0 = some (([0, 5, 20] : List Float).map Float.toBits) ∧
+    lensBits demo32 (some 10) 0 = some (([0, 5, 10] : List Float).map Float.toBits) ∧
+    lensBits demoTail32 (some 20) 0 = some (([0, 5, 5, 5] : List Float).map Float.toBits) ∧
+    lensBits [⟨1, 2⟩] (some 20) 0 = some (([0] : List Float).map Float.toBits) ∧
+    lensBits demo32 (some (-5)) 0 = some (([0] : List Float).map Float.toBits) := by decide +kernel
+
+example : near (0 : Float) demo32 7 = false ∧ equalTail (0 : Float) demo32 7 = false ∧ cutIdx (0 : Float) demo32 7 = 2 ∧
+    near (0 : Float) demo32 20 = false ∧ equalTail (0 : Float) demo32 20 = false ∧ cutIdx (0 : Float) demo32 20 = 2 ∧
+    near (0 : Float) demo32 10 = true ∧
+    near (0 : Float) demoTail32 20 = false ∧ equalTail (0 : Float) demoTail32 20 = true ∧
+    near (0 : Float) demo32 (-5) = false ∧ equalTail (0 : Float) demo32 (-5) = false ∧
+      cutIdx (0 : Float) demo32 (-5) = 0 := by decide +kernel
+
+/-- a NaN request is "near" (natural lengths are kept); `+∞` is honoured (`[0, 5, +∞]`). -/
+example : lensBits demo32 (some (Float.ofBits 0x7FF8000000000000)) 0 = some (([0, 5, 10] : List Float).map Float.toBits) ∧
+    lensBits demo32 (some (Float.ofBits 0x7FF0000000000000)) 0 = some [0, 0x4014000000000000, 0x7FF0000000000000] := by
+  decide +kernel
+
+/-- overflow: without a request the natural lengths of `demoHuge32` are `0, +∞, +∞`; a finite request `L = 7` cuts
+them to `[0, 7]` (`calculateLength_finite_float`), and `L = +∞` is "near" (`∞ − ∞` is a NaN). -/
+example : lensBits demoHuge32 none 0 = some [0, 0x7FF0000000000000, 0x7FF0000000000000] ∧
+    lensBits demoHuge32 (some 7) 0 = some (([0, 7] : List Float).map Float.toBits) ∧
+    near (0 : Float) demoHuge32 (Float.ofBits 0x7FF0000000000000) = true := by decide +kernel
+
+/-- the theorems applied: the cut at `L = 7` of `demo32`. -/
+example : ∃ p' ls, calculateLength demo32 (some (7 : Float)) 0 = .ok (p', ls) ∧ Mono ls ∧ dist ls = 7 ∧
+    ∀ v ∈ ls, v.toModel.unpack.isFinite = true := by
+  obtain ⟨r, hr⟩ := calculateLength_total demo32 (some (7 : Float)) 0
+  have hfin : ∀ p ∈ demo32, FinitePos p := by decide +kernel
+  have hd := (calculateLength_dist_float demo32 7 0 zero_le_zero_float hfin (by decide +kernel) r.1 r.2 hr).1
+  have hc : near (0 : Float) demo32 7 = false ∧ equalTail (0 : Float) demo32 7 = false := by decide +kernel
+  refine ⟨r.1, r.2, hr,
+    (calculateLength_lengths_monotone_float demo32 _ 0 zero_le_zero_float hfin r.1 r.2 hr).1, ?_,
+    calculateLength_finite_float demo32 7 0 zero_le_zero_float hfin (by decide +kernel) r.1 r.2 hr⟩
+  rw [hd, hc.1, hc.2]
+  simp [demo32]
+
+/-- `new_lengths_monotone_float` applies: three linear control points in osu! mode, `L = 7`. -/
+def demoCps : List (PathControlPoint Float32) :=
+  [⟨⟨0, 0⟩, some PathType.linear⟩, ⟨⟨3, 4⟩, none⟩, ⟨⟨6, 8⟩, none⟩]
+
+example : NoOsuCatmull GameMode.osu demoCps := by
+  right
+  intro pt hpt t ht
+  simp only [demoCps, List.mem_cons, List.not_mem_nil, or_false] at hpt
+  rcases hpt with rfl | rfl | rfl
+  · cases ht; decide
+  · cases ht
+  · cases ht
+
+/-- a stand-in for the `f32` libm functions (the driver's instance lives in Model/Cmds/Curve.lean; linear segments
+never call them). -/
+@[instance_reducible] def trigStub32 : Trig Float32 := ⟨id, id, id, fun a _ => a, 0⟩
+attribute [local instance] trigStub32
+
+example :
+    (∀ b1 opt, calculatePath 10 GameMode.osu demoCps ({} : CurveBuffers Float32 Float) = .ok (b1, opt) →
+      ∀ p ∈ b1.path, FinitePos p) ∧
+    (Curve.new 10 GameMode.osu demoCps (some (7 : Float)) ({} : CurveBuffers Float32 Float)).toOption.map
+      (fun r => r.1.lengths.map Float.toBits) = some (([0, 5, 7] : List Float).map Float.toBits) := by
+  constructor
+  · intro b1 opt h
+    have key : ((calculatePath 10 GameMode.osu demoCps ({} : CurveBuffers Float32 Float)).toOption.map
+        fun r => decide (∀ p ∈ r.1.path, FinitePos p)) = some true := by decide +kernel
+    rw [h] at key
+    simpa [Except.toOption] using key
+  · decide +kernel
+
+/-! #### sharpness: the hypothesis `0 ≤ optimized_len` -/
+
+/-- **the osu!-mode Catmull surplus can be negative in IEEE arithmetic**: on the sub-path `(0,0), (1,1), (4,4)` the
+simplification keeps the two end points and books `(|ab| + |bc|) − |ac| = −2^-23` (each distance rounded to `f32`:
+`√2 + √18 < √32` after rounding), although the triangle inequality makes the exact value `≥ 0`
+(`catmullSimplify_surplus_nonneg` in Props/C16Surplus.lean). -/
+theorem surplus_negative_float :
+    Scalar.lt (catmullSimplify ([⟨0, 0⟩, ⟨1, 1⟩, ⟨4, 4⟩] : List (Pos Float32)) (0 : Float)).2 (0 : Float) = true ∧
+    (catmullSimplify ([⟨0, 0⟩, ⟨1, 1⟩, ⟨4, 4⟩] : List (Pos Float32)) (0 : Float)).2.toBits = 0xBE80000000000000 := by
+  decide +kernel
+
+/-- **with a negative surplus the returned lengths do decrease**: `optimized_len = −0x1.6p-25 ≈ −4.1e-8` (the value
+`calculate_path` computes for the control points `(0,0) L, (0,0) C, (3,1)` in osu! mode, see
+Props/C16IeeeAdjWitness.lean) and the path `(0,0), (0,0), (3,1)` give the lengths `0, −4.1e-8, 3.1622…`:
+`0 ≤ −4.1e-8` is false. So `0 ≤ optimized_len` cannot be dropped from `calculateLength_lengths_monotone_float`, and
+"never decrease" holds for such curves only up to a tolerance (the `1e-5` of the property text). -/
+theorem surplus_negative_decreases :
+    (∀ p ∈ ([⟨0, 0⟩, ⟨0, 0⟩, ⟨3, 1⟩] : List (Pos Float32)), FinitePos p) ∧
+    lensBits [⟨0, 0⟩, ⟨0, 0⟩, ⟨3, 1⟩] none (Float.ofBits 0xBE66000000000000) =
+      some [0, 0xBE66000000000000, 0x40094C583A800000] ∧
+    ¬ Mono (natLens (Float.ofBits 0xBE66000000000000) ([⟨0, 0⟩, ⟨0, 0⟩, ⟨3, 1⟩] : List (Pos Float32))) := by
+  refine ⟨by decide +kernel, by decide +kernel, ?_⟩
+  intro h
+  exact absurd h.1 (by decide +kernel)
+
+end NonVacuity
 
 end FloatSec
 
